@@ -1212,6 +1212,32 @@ class StmtMixin(object):
         if isinstance(target, ast.Attribute):
             recv = self.ev1(target.value, st)
             r = self.deref(recv, st)
+            if isinstance(r, Rec) and r.module.find_method(r.cls, target.attr + '.setter') is not None:
+                # self.x = v where x is a property with a setter: the setter runs (under its contract when it has one)
+                fi_ = r.module.find_method(r.cls, target.attr + '.setter')
+                c_ = self.reg.get(fi_.file, fi_.qualname)
+                if c_ is not None and not c_.inline:
+                    # modular: the setter's precondition is an obligation here; the fields it assigns (self.X = ... in its body) get fresh
+                    # values of their declared types, described by its postcondition only
+                    pnames = list(c_.params)
+                    env_ = {pnames[0]: recv, pnames[1]: self.coerce(v, c_.params[pnames[1]], st, pnames[1])}
+                    pre_ = st.copy(); pre_.frames.append(dict(env_))
+                    ns_pre_ = NS(self, pre_, frame=pre_.frames[-1])
+                    for g in c_.requires(ns_pre_): self.obl('call-pre/%s' % fi_.qualname, st, g)
+                    assigned = sorted({t_.attr for n_ in ast.walk(fi_.node) if isinstance(n_, (ast.Assign, ast.AugAssign))
+                                       for t_ in (n_.targets if isinstance(n_, ast.Assign) else [n_.target])
+                                       if isinstance(t_, ast.Attribute) and isinstance(t_.value, ast.Name) and t_.value.id == fi_.node.args.args[0].arg})
+                    r2 = Rec(r.cls, r.module, r.fields)
+                    for fld_ in assigned:
+                        fty_ = self.reg.field_type(r.cls, fld_)
+                        if fty_ is None: raise Unsupported('field %s.%s (assigned by the setter) not declared in the sidecar' % (r.cls, fld_))
+                        r2.fields[fld_] = wrap(fty_, fresh(fty_.sort(), '%s_%s' % (r.cls.lower(), fld_)))
+                    st.cells[recv.id] = r2
+                    st.pc += c_.ensures(NS(self, st, frame=env_), ns_pre_, None)
+                    return
+                outs_ = self.call_function(fi_, [recv, v], {}, st, self_cls=(r.module, r.cls), node=target)
+                if len(outs_) != 1 or outs_[0][1] is not st: raise Unsupported('property setter %s with more than one exit' % fi_.qualname)
+                return
             if isinstance(r, Rec):
                 r2 = Rec(r.cls, r.module, r.fields); r2.fields[target.attr] = v
                 st.cells[recv.id] = r2; return
@@ -1784,9 +1810,16 @@ class CallMixin(object):
             for args, s2 in self._ev_list(n.args, s1):
                 kws = [([], s2)]
                 names = [k.arg for k in n.keywords]
-                if any(nm is None for nm in names): raise Unsupported('**kwargs call')
                 for vals, s3 in self._ev_list([k.value for k in n.keywords], s2):
-                    out.extend(self.call_value(f, args, dict(zip(names, vals)), s3, node=n))
+                    kw_ = {}
+                    for nm, val in zip(names, vals):
+                        if nm is None:
+                            # f(**d): a dict with concretely known keys is spread into keyword arguments
+                            dd = self.deref(val, s3)
+                            if not isinstance(dd, PyDict) or not all(isinstance(k_, str) for k_ in dd.d): raise Unsupported('**kwargs call')
+                            kw_.update(dd.d)
+                        else: kw_[nm] = val
+                    out.extend(self.call_value(f, args, kw_, s3, node=n))
         return out
 
     def call_super(self, n, st):
@@ -2385,9 +2418,13 @@ class CallMixin(object):
         for nm, v in zip(names, args): env[nm] = v
         rest = args[len(names):]
         if a.vararg: env[a.vararg.arg] = rest[0].seq if (len(rest) == 1 and isinstance(rest[0], StarSeq)) else Tup(rest)
+        extra = {}
         for k, v in kw.items():
-            if k not in names: raise Unsupported('unexpected keyword %s' % k)
-            env[k] = v
+            if k not in names:
+                if a.kwarg is None: raise Unsupported('unexpected keyword %s' % k)
+                extra[k] = v
+            else: env[k] = v
+        if a.kwarg is not None: env[a.kwarg.arg] = PyDict(extra)
         ndef = len(a.defaults)
         for i, nm in enumerate(names):
             if nm not in env:
@@ -2847,6 +2884,10 @@ class Executor(Exec, ExprMixin, StmtMixin, CallMixin):
         st = State()
         for nm, ty in c.params.items():
             st.env[nm] = self.literal_input(c.concrete_inputs[nm], ty, st) if nm in c.concrete_inputs else self.make_input(nm, ty, st)
+        if fi.node.args.kwarg and fi.node.args.kwarg.arg not in c.params:
+            # a **kwargs parameter the contract does not speak about: the function is verified for calls without extra keyword arguments
+            st.env[fi.node.args.kwarg.arg] = PyDict({})
+            self.reg.assume('%s::%s is verified for calls that pass no extra keyword arguments (**%s empty): the call sites in atsim/ pass none' % (fi.file, fi.qualname, fi.node.args.kwarg.arg))
         entry = st.copy()
         self.old_ns = NS(self, entry)
         st.pc += c.requires(NS(self, st))
